@@ -91,6 +91,18 @@ def check_space(chk, drv, sp, stats, ndata):
         chk.fail('C09:weights-aliased', 'get_quadrature_coefficients returns different weights after the vector returned by an earlier call was '
                  'modified in place by its owner', case, expected=[float(x) for x in w], actual=[float(x) for x in again2])
         return
+    # the weights do not depend on the element type the interpolator was built for (the quasi-neutrality solver builds a complex one)
+    if not sp.per:
+        try:
+            wc = np.asarray(SplineInterpolator1D(sp.basis, complex).get_quadrature_coefficients())
+        except Exception as e:  # noqa: BLE001
+            chk.fail('C09:raises', 'get_quadrature_coefficients of a complex interpolator raised %s: %s' % (type(e).__name__, e), case)
+            return
+        tol = 1e-9 * float(np.abs(w).max())
+        if wc.shape != w.shape or not np.all(np.abs(np.real(wc) - w) <= tol) or not np.all(np.abs(np.imag(wc)) <= tol):
+            chk.fail('C09:weights-complex-interpolator', 'the quadrature weights of an interpolator built for complex data differ from those of the real one',
+                     case, expected=[float(x) for x in w], actual=[complex(x) for x in np.ravel(wc)])
+            return
     Ir = np.array(sp.basis.integrals, dtype=float)
     xs = np.asarray(sp.basis.greville, dtype=float)
     if not H.all_finite(w, Ir, xs):
@@ -273,6 +285,13 @@ def run(chk):
             ncell = rng.randint(max(pdeg + 1, 4) if per else 1, 9)
             step = rng.choice([1, 1, 2, 3])
             todo.append(H.Sp(pdeg, per, 'cu' if pdeg == 3 and k % 2 == 0 else 'uniform', np.arange(a0, a0 + step * ncell + 1, step), int_knots=True))
+        # strongly graded clamped spaces (one very short cell, high degree on few cells): some weights are NEGATIVE there
+        for k in range(chk.n(10, 60)):
+            pdeg = rng.choice([3, 3, 4, 5])
+            ncell = rng.randint(1, 5)
+            w_ = [rng.uniform(0.5, 1.5) for _ in range(ncell)]
+            w_[rng.randrange(ncell)] *= rng.choice([0.01, 0.003])
+            todo.append(H.Sp(pdeg if ncell > 1 else rng.choice([5, 5, 4]), False, 'random', np.concatenate([[0.0], np.cumsum(w_)])))
         todo += [H.gen_space(rng) for _ in range(chk.n(180, 3000))]
         for sp in todo:
             check_space(chk, drv, sp, stats, chk.n(2, 4))
